@@ -73,8 +73,18 @@ def build_origin(spec: list, sources: list[Any], fresh: bool = False) -> Any:
     if kind == "xml":
         return XMLFileOrigin(source=sources[spec[1]], position=XMLPath(spec[2]))
     if kind == "multi":
+        members = [build_origin(m, sources, fresh) for m in spec[1]]
+        if len(members) >= 3 and sum(len(str(m)) for m in spec[1]) % 2:
+            # the way user code arrives at them: a multi-origin extended with `+` (same result as
+            # the list below: nothing is merged, `+` on a multi-origin only appends)
+            from pyoak.origin import merge_origins
+
+            acc = merge_origins(members[0], members[1])
+            for m in members[2:]:
+                acc = acc + m
+            return acc
         # built with a list exactly as merge_origins does
-        return MultiOrigin(origins=[build_origin(m, sources, fresh) for m in spec[1]])
+        return MultiOrigin(origins=members)
     raise ValueError(f"bad origin spec {spec!r}")
 
 
@@ -124,7 +134,7 @@ def st_origin(max_index: int = 40, allow_no: bool = True):
     from hypothesis import strategies as st
 
     simple = st_simple_origin(max_index)
-    multi = st.lists(simple, min_size=2, max_size=3).map(lambda ms: ["multi", ms])
+    multi = st.lists(simple, min_size=2, max_size=4).map(lambda ms: ["multi", ms])
     opts = [simple, simple, simple, multi]
     if allow_no:
         opts.append(st.just(["no"]))
